@@ -1373,7 +1373,7 @@ def run(ctx):
         for edit in (["mutate_dict_obs", "del_md_subset_samp", "transform_inplace", "update_ids_inplace"]
                      if (ctx.quick() or wi != 0) else SAFE_EDITS):
             alias_case(ctx, rng, core.build(hist_spec, rng.choice(core.ROUTES)), how, edit, ("systematic",))
-    n = 650 if ctx.quick() else max(650, 14000 // wn)
+    n = 650 if ctx.quick() else max(650, 12000 // wn)
     max_n = 6 if ctx.quick() else 9
     for k in range(n):
         spec = gen_spec(rng, max_n, max_n)
